@@ -16,7 +16,14 @@ demanded; fit without bases for complex / mixed -> refused (any exception), no c
 constructed, parameters and torch RNG state unchanged; aux_bias of rbm_ph exactly 0 after real training with SGD, SGD+momentum, Adam, and the
 aux-bias block of every phase-gradient function exactly zero.
 Red-team round 2: size arguments in numpy / float encodings (enc_sz), user subclasses of the RBM classes and zero_weights=True
-modules as module= (make_module, check_phase_copy), `s.rbm_am is module` after reinitialising a module-built state."""
+modules as module= (make_module, check_phase_copy), `s.rbm_am is module` after reinitialising a module-built state.
+Seed round 5 (C20e: a gradient block addressed from the end of the vector assuming num_aux == num_hidden): aux_bias_arch_block runs FIRST
+and trains a DensityMatrix of EVERY architecture nv 1..4 x nh 0..5 x na 1..5 (+ defaulted sizes, + nv = 5 / 6 and wider layers) once, the
+construction path (sizes / keywords / module= / module= subclass / construct-train-reinitialise) and eleven optimizers rotating within each
+shape class (na <, =, > nh); demanded: rbm_ph.aux_bias exactly 0 after every batch and at the end, and the aux-bias slot of every phase
+gradient (gradient, compute_batch_gradients, rotated_gradient, ph_grads, gamma_grad, pi_grad; expand=True / False / 1-D) exactly zero.
+shape_cases enumerates every architecture nv 1..5 x nh None,0..6 x na None,0..5; reinit / module= / model-correspondence training cases
+have one architecture per shape class."""
 import copy, time, itertools
 import numpy as np
 
@@ -30,7 +37,13 @@ RULE = ("histories of 6..14 (quick) / 10..24 (thorough) construction operations 
         "integer; user-built modules are stock RBMs, USER SUBCLASSES of them (class-level override of effective_energy), modules built with "
         "zero_weights=True, or both (fixed cases for every state type x gpu form first, then in the histories): rbm_ph must be of the module's "
         "class with the module's effective energies, all-zero weights must be redrawn by reinitialize_parameters, and a state built from "
-        "module= still uses that module as its amplitude network after reinitialising")
+        "module= still uses that module as its amplitude network after reinitialising; seed round 5: FIRST, one short DensityMatrix training run "
+        "(6 records, 2 in the reference basis, an X and a Y among the others, 2 epochs x 2 batches) for EVERY architecture nv 1..4 x nh 0..5 x "
+        "na 1..5 (thorough: nv 1..5 x nh 0..6 x na 1..6), the defaulted forms (num_hidden / num_aux None) and a few wider ones — every shape class "
+        "na < nh, na = nh, na > nh, na <=> nv, nh <=> nv, nh + na < nv, nh = 1 under a wide visible layer, nh = 0 — with all parameters of both "
+        "networks random (the two networks different; the phase aux bias as constructed), the construction path (sizes positional / keywords / "
+        "module= stock / module= user subclass / construct, train, reinitialise) and eleven optimizers rotating within each class; non-trivial "
+        "there := the architecture is not square")
 ASSUMPTIONS = ["data_ptr() identifies a parameter's storage (zero-size tensors are identified by object id)",
                "the optimizers of the installed torch are coordinate-wise (SGD, SGD+momentum, Adam are checked by running them)",
                "IN scope: a user subclass of BinaryRBM / PurificationRBM as module= (an instance of a subclass IS an instance of the documented "
@@ -40,6 +53,10 @@ ASSUMPTIONS = ["data_ptr() identifies a parameter's storage (zero-size tensors a
                "as a BinaryRBM / PurificationRBM, whose parameters are double; fit() of a state built from a float32 module raises on the unchanged tree)",
                "float-valued size arguments holding an integer (6.0) are generated because the RBM constructors coerce num_visible / num_hidden / "
                "num_aux with int() on the unchanged tree (documented type: int)",
+               "num_hidden = 0 (explicit, PurificationRBM) is generated in the architecture block, but that construction / gradients / training RUN "
+               "for it is not demanded (only: if they run, the phase aux bias stays zero)",
+               "the slot of the auxiliary bias in a flat phase-gradient vector is its position in rbm_ph.parameters() order (the order in which fit "
+               "hands gradient entries to parameters)",
                "after reinitialize_parameters only the identity of the amplitude NETWORK of a module=-built state is demanded (the statement: the state "
                "uses that RBM; reinitialising redraws parameters); identity of Parameter objects and of the phase network is not"]
 
@@ -223,21 +240,25 @@ def module_gpu_cases(ctx):
     from qucumber.rbm import BinaryRBM, PurificationRBM
     CLS = [PositiveWaveFunction, ComplexWaveFunction, DensityMatrix]
     for k in range(3):
-        for form, variant in itertools.product(("omitted", "True", "False"), ("stock", "subclass", "zero", "subclass+zero")):
+        for ci, (form, variant) in enumerate(itertools.product(("omitted", "True", "False"), ("stock", "subclass", "zero", "subclass+zero"))):
             ctx.torch_seed()
-            # stock module / user subclass of the library's RBM / built with the documented flag zero_weights=True
-            m = make_module(ctx, 0 if k < 2 else 1, 2, 3, 1, variant, **gpu_kw(ctx, form))
+            # stock module / user subclass of the library's RBM / built with the documented flag zero_weights=True; the module's
+            # architecture rotates through the shape classes (na < nh, na > nh, nh + na < nv, square)
+            mnv, mnh, mna = ((2, 3, 1), (2, 1, 3), (4, 1, 2), (3, 3, 3), (1, 2, 4))[(ci + k) % 5]
+            m = make_module(ctx, 0 if k < 2 else 1, mnv, mnh, mna, variant, **gpu_kw(ctx, form))
             for n_, p in m.named_parameters():
                 if not ("zero" in variant and n_.startswith("weights")):
                     p.data.add_(torch.tensor(ctx.rng.normal(size=tuple(p.shape)) + 0.1))
             before = snap(m)
-            case = {"module_ctor": CLS[k].__name__, "gpu": form, "module": variant}
+            case = {"module_ctor": CLS[k].__name__, "gpu": form, "module": variant, "module_sizes": [mnv, mnh, mna][:2 if k < 2 else 3]}
             ctx.case(case, nontrivial=True)
-            ok, s = ctx.call("module= constructor", case, lambda: CLS[k](enc_sz(ctx, 2), module=m, **gpu_kw(ctx, form)))
+            ok, s = ctx.call("module= constructor", case, lambda: CLS[k](enc_sz(ctx, mnv), module=m, **gpu_kw(ctx, form)))
             if not ok:
                 continue
             ctx.require("module=: rbm_am IS the supplied module", s.rbm_am is m, case)
             ctx.require("module=: the module's parameters are unchanged", same(snap(m), before), case)
+            ctx.require("module=: sizes are the module's", [int(s.num_visible), int(s.num_hidden)] + ([int(s.num_aux)] if k == 2 else [])
+                        == [mnv, mnh, mna][:2 if k < 2 else 3], case)
             if k:
                 check_phase_copy(ctx, s, m, "module=", case)
             # a later in-place change of the module is a change of the state's amplitude network
@@ -274,7 +295,8 @@ def reinit_cases(ctx):
     from qucumber.rbm import BinaryRBM, PurificationRBM
     CLS = [PositiveWaveFunction, ComplexWaveFunction, DensityMatrix]
     for k in range(3):
-        for nv, nh, na in ((2, 3, 1), (3, 2, 2)):
+        # na < nh, na = nh < nv, na > nh, nh + na < nv with nh = 1 (for the one-network / BinaryRBM types na is ignored: the last two add nh = nv, nh = 1)
+        for nv, nh, na in ((2, 3, 1), (3, 2, 2), (2, 2, 3), (4, 1, 2)):
             # built from sizes / from a stock module / from a user subclass of the library's RBM / from a module built with the
             # documented flag zero_weights=True (then reinitialised at once: all-zero weights must be REDRAWN, not zeroed again)
             for via_module in (False, "stock", "subclass", "zero", "subclass+zero"):
@@ -581,11 +603,216 @@ def fit_guard_cases(ctx):
 
 
 # ----------------------------------------------------------------------------- phase aux bias
+def arch_classes(nv, nh, na):
+    """shape classes of a purification RBM with (effective) sizes nv, nh, na: a formula written for the square / default
+    architecture (nh = na = nv) can go wrong in each of them separately"""
+    tags = [["na<nh", "na=nh", "na>nh"][(na > nh) - (na < nh) + 1], ["na<nv", "na=nv", "na>nv"][(na > nv) - (na < nv) + 1],
+            ["nh<nv", "nh=nv", "nh>nv"][(nh > nv) - (nh < nv) + 1]]
+    if nh + na < nv:
+        tags.append("nh+na<nv")
+    if nh == 1 and nv >= 3:
+        tags.append("nh=1,nv>=3")
+    if nh == 0:
+        tags.append("nh=0")
+    if nv == 1:
+        tags.append("nv=1")
+    return tags
+
+
+def ab_slot(rbm):
+    """[lo, hi) of aux_bias in the flat parameter vector of a network, in the order in which fit hands the entries of a gradient
+    vector to the parameters (rbm.parameters()), and the length of that vector"""
+    off, slot = 0, None
+    for n, p in rbm.named_parameters():
+        if n == "aux_bias":
+            slot = (off, off + p.numel())
+        off += p.numel()
+    return slot, off
+
+
+def optimizer_menu():
+    import torch
+    O = torch.optim
+    return [("SGD", O.SGD, {}), ("Adam", O.Adam, {}), ("SGD+momentum", O.SGD, {"momentum": 0.9}), ("RMSprop+momentum", O.RMSprop, {"momentum": 0.5}),
+            ("SGD+nesterov+wd", O.SGD, {"momentum": 0.5, "nesterov": True, "weight_decay": 0.01}), ("AdamW", O.AdamW, {}),
+            ("Adam+wd+amsgrad", O.Adam, {"weight_decay": 0.01, "amsgrad": True}), ("Adagrad", O.Adagrad, {}), ("Adadelta", O.Adadelta, {}),
+            ("Adamax", O.Adamax, {}), ("RMSprop+centered", O.RMSprop, {"centered": True})]
+
+
+PATHS = ("sizes", "module", "sizes-keywords", "module-subclass", "sizes,train,reinitialize")
+
+
+def all_archs(ctx):
+    """EVERY architecture of the stated ranges (explicit sizes), then the defaulted forms, then a few wider ones"""
+    nvs, nhs, nas = (range(1, 6), range(0, 7), range(1, 7)) if ctx.thorough else (range(1, 5), range(0, 6), range(1, 6))
+    archs = [(nv, nh, na) for nv in nvs for nh in nhs for na in nas]
+    archs += [(nv, nh, na) for nv in (1, 2, 3) for nh, na in ((None, None), (None, 1), (None, 4), (1, None), (4, None), (0, None))]
+    if not ctx.thorough:
+        archs += [(5, 1, 1), (5, 1, 2), (5, 2, 1), (5, 1, 3), (5, 3, 1), (5, 2, 2), (5, 2, 6), (5, 6, 2), (5, 1, 6), (5, None, None)]
+    else:
+        archs += [(6, 1, 2), (6, 2, 1), (6, 2, 3), (6, None, 2), (2, 9, 1), (2, 1, 9), (1, 1, 8)]
+    return archs
+
+
+def train_data(rng, nv, N):
+    """measurement records: some in the reference basis, the others in random bases; an X and a Y occur"""
+    import torch
+    data = torch.tensor(rng.integers(0, 2, size=(N, nv)), dtype=torch.double)
+    bases = np.array([["Z"] * nv] * 2 + [list(rng.choice(["X", "Y", "Z"], size=nv)) for _ in range(N - 2)])
+    bases[2, int(rng.integers(0, nv))] = "X"
+    bases[3, int(rng.integers(0, nv))] = "Y"
+    return data, bases
+
+
+def aux_bias_arch_block(ctx):
+    """The clause 'the phase network's auxiliary bias stays zero throughout training' for EVERY architecture (nv, nh, na) of the
+    stated ranges — na < nh, na = nh, na > nh, na > nv, nh + na < nv, nh = 1 with a wide visible layer, nh = 0, defaulted sizes —
+    one short training run each (rotated bases), with the construction path and the optimizer rotating WITHIN every shape class, all
+    parameters of both networks random (the two networks written with different values; the phase aux bias left at the value
+    construction gave it).  Demanded: the entries of every phase gradient for the slot of the auxiliary bias are exactly zero, and
+    rbm_ph.aux_bias is exactly zero after every batch and at the end."""
+    import torch
+    from qucumber.nn_states import DensityMatrix
+    from qucumber.callbacks import CallbackBase
+
+    class Watch(CallbackBase):
+        def __init__(self):
+            self.first, self.batches = None, 0
+
+        def on_batch_end(self, s, ep, b):
+            self.batches += 1
+            ab = s.rbm_ph.aux_bias.data
+            if self.first is None and bool((ab != 0).any()):
+                self.first = {"epoch": int(ep), "batch": int(b), "aux_bias": ab.tolist()}
+
+    opts = optimizer_menu()
+    rot = {}
+    failed = 0
+    for idx, (nv, nh, na) in enumerate(all_archs(ctx)):
+        enh, ena = nv if nh is None else nh, nv if na is None else na
+        tags = arch_classes(nv, enh, ena)
+        for t in tags:
+            ctx.count("arch class:" + t)
+        # the rotation is per shape class (first tag = na vs nh), periods 5 and 11: every class meets every path and every optimizer
+        r = rot[tags[0]] = rot.get(tags[0], -1) + 1
+        path = PATHS[r % len(PATHS)] if nh is not None and na is not None else ("sizes", "sizes-keywords")[r % 2]
+        oname, ocls, oargs = opts[(r + ctx.seed) % len(opts)]
+        sub = int(ctx.rng.integers(0, 2 ** 31 - 1))
+        rng = np.random.default_rng(sub)
+        torch.manual_seed(sub)
+        case = {"aux_bias_arch": True, "nv": nv, "nh": nh, "na": na, "built": path, "optimizer": oname, "optimizer_args": oargs, "case_seed": sub}
+        ctx.case({k: case[k] for k in ("aux_bias_arch", "nv", "nh", "na", "built", "optimizer")}, nontrivial=(enh != ena or enh != nv))
+        ctx.count("aux-bias architecture run, built by:" + path)
+        zero_size = enh == 0                     # num_hidden = 0: generated, but that training RUNS for it is not demanded
+
+        def build():
+            if path == "sizes":
+                return DensityMatrix(enc_sz(ctx, nv), enc_sz(ctx, nh), enc_sz(ctx, na), gpu=False)
+            if path == "sizes-keywords":
+                kw = {k: enc_sz(ctx, v) for k, v in (("num_hidden", nh), ("num_aux", na)) if v is not None}
+                return DensityMatrix(num_visible=enc_sz(ctx, nv), gpu=False, **kw)
+            if path in ("module", "module-subclass"):
+                mod = make_module(ctx, 1, nv, nh, na, "subclass" if "subclass" in path else "stock", gpu=False)
+                return DensityMatrix(enc_sz(ctx, int(rng.integers(1, 6))), module=mod, gpu=False)
+            s_ = DensityMatrix(enc_sz(ctx, nv), enc_sz(ctx, nh), enc_sz(ctx, na), gpu=False)
+            d_, b_ = train_data(rng, nv, 4)
+            s_.fit(d_, epochs=1, pos_batch_size=2, k=1, lr=0.1, input_bases=b_)
+            s_.reinitialize_parameters()
+            return s_
+        if zero_size:
+            try:
+                dm = build()
+            except Exception:
+                ctx.count("num_hidden = 0: construction raised (nothing demanded)")
+                continue
+        else:
+            ok, dm = ctx.call("DensityMatrix construction (%s)" % path, case, build)
+            if not ok:
+                failed += 1
+                continue
+        got = [int(dm.rbm_ph.num_visible), int(dm.rbm_ph.num_hidden), int(dm.rbm_ph.num_aux)]
+        ctx.require("the phase network has the requested / defaulted / the module's sizes", got == [nv, enh, ena], case, {"got": got, "want": [nv, enh, ena]})
+        # all parameters of both networks random and different between the networks; the phase aux bias stays what construction made it
+        for net in ("rbm_am", "rbm_ph"):
+            for n, p in getattr(dm, net).named_parameters():
+                if not (net == "rbm_ph" and n == "aux_bias") and p.numel():
+                    p.data.copy_(torch.tensor(rng.normal(size=tuple(p.shape)) * 0.5 + 0.05))
+        ab0 = dm.rbm_ph.aux_bias.data.clone()
+        if tuple(ab0.shape) != (ena,) or bool((ab0 != 0).any()):
+            # not zero to begin with: 'stays zero' says nothing (zero biases after construction are demanded elsewhere)
+            ctx.count("aux-bias architecture run skipped: phase aux bias not zero before training")
+            continue
+        data, bases = train_data(rng, nv, 6)
+        case["data"], case["bases"] = data.tolist(), ["".join(b) for b in bases]
+        slot, P = ab_slot(dm.rbm_ph)
+        lo, hi = slot
+        nf0 = len(ctx.failures)
+        # ---- the gradient entries for that slot (what the optimizer is handed)
+        fns = [("gradient(samples, bases)[1]", lambda: dm.gradient(data, bases)[1]),
+               ("compute_batch_gradients(...)[1]", lambda: dm.compute_batch_gradients(1, data, data[:3].clone(), bases)[1]),
+               ("ph_grads", lambda: dm.ph_grads(data)),
+               ("rotated_gradient(basis, samples)[1]", lambda: dm.rotated_gradient(bases[2], data[:2])[1]),
+               ("rbm_ph.gamma_grad(eta=-1, expand=True)", lambda: dm.rbm_ph.gamma_grad(data, data.flip(0), eta=-1, expand=True)),
+               ("rbm_ph.gamma_grad(eta=-1, expand=False)", lambda: dm.rbm_ph.gamma_grad(data, data.flip(0), eta=-1, expand=False)),
+               ("rbm_ph.gamma_grad(1-D)", lambda: dm.rbm_ph.gamma_grad(data[0], data[-1], eta=-1, expand=False)),
+               ("pi_grad(phase=True, expand=True)", lambda: dm.pi_grad(data, data.flip(0), phase=True, expand=True)),
+               ("pi_grad(phase=True, expand=False)", lambda: dm.pi_grad(data, data.flip(0), phase=True, expand=False)),
+               ("pi_grad(phase=True, 1-D)", lambda: dm.pi_grad(data[0], data[-1], phase=True, expand=False))]
+        blocks = []
+        for nm, fn in fns:
+            if zero_size:
+                try:
+                    t = fn()
+                except Exception:
+                    ctx.count("num_hidden = 0: a gradient function raised (nothing demanded)")
+                    continue
+            else:
+                ok, t = ctx.call("phase gradient function " + nm, case, fn)
+                if not ok:
+                    continue
+            if t.shape[-1] != P:
+                ctx.count("phase gradient vector of a length other than the number of phase parameters")
+            blocks.append((nm, t[..., lo:hi].clone()))
+        # ---- a short training run
+        before = snap(dm.rbm_ph)
+        w = Watch()
+        fit = lambda: dm.fit(data, epochs=2, pos_batch_size=3, neg_batch_size=int(rng.integers(1, 4)), k=1, lr=0.05, input_bases=bases,
+                             optimizer=ocls, optimizer_args=dict(oargs), callbacks=[w])
+        if zero_size:
+            try:
+                fit()
+                ok = True
+            except Exception:
+                ctx.count("num_hidden = 0: training raised (nothing demanded)")
+                ok = False
+        else:
+            ok, _ = ctx.call("DensityMatrix.fit with %s" % oname, case, fit)
+        if ok:
+            ab = dm.rbm_ph.aux_bias.data
+            ctx.require("aux_bias of rbm_ph exactly 0 after every batch of training", w.first is None, case, w.first)
+            ctx.require("aux_bias of rbm_ph exactly 0 after training", tuple(ab.shape) == (ena,) and bool((ab == 0).all()), case, ab.tolist())
+            moved = [n for (n, t0), (_, t1) in zip(before, snap(dm.rbm_ph)) if not torch.equal(t0, t1)]
+            ctx.count("aux-bias architecture run: phase network %s by training" % ("moved" if moved else "NOT moved"))
+            ctx.count("aux-bias architecture run, optimizer:" + oname)
+            ctx.traces += 1
+        # (reported after the training clause: the statement is about the bias itself, the gradient entries are its mechanism)
+        for nm, blk in blocks:
+            ctx.require("%s: the entries for the phase network's auxiliary bias are exactly zero" % nm, bool((blk == 0).all()), case,
+                        {"slot": [lo, hi], "largest_entry": float(blk.abs().max()) if blk.numel() else 0.0,
+                         "rows_with_a_non_zero_entry": blk.reshape(-1, blk.shape[-1])[(blk.reshape(-1, blk.shape[-1]) != 0).any(-1)][:2].tolist()})
+        if len(ctx.failures) > nf0:
+            failed += 1
+            if failed >= 3:
+                ctx.count("aux-bias architecture block cut after three failing architectures")
+                break
+
+
 def aux_bias_cases(ctx):
     import torch
     from qucumber.nn_states import DensityMatrix
     m = ctx.get_model()
-    archs = [(2, 2, 1), (2, 3, 2), (3, 2, 3), (1, 2, 2)] if ctx.thorough else [(2, 3, 2), (2, 2, 1), (1, 2, 2)]
+    # one architecture of every shape class: na < nh, na < nh = nv, na = nh > nv, na > nh, nh + na < nv
+    archs = [(2, 2, 1), (2, 3, 2), (3, 2, 3), (1, 2, 2), (4, 1, 2), (3, 3, 3)] if ctx.thorough else [(2, 3, 2), (2, 2, 3), (1, 2, 2), (4, 1, 2)]
     opts = [("SGD", torch.optim.SGD, {}), ("SGD+momentum", torch.optim.SGD, {"momentum": 0.9}),
             ("SGD+nesterov+wd", torch.optim.SGD, {"momentum": 0.5, "nesterov": True, "weight_decay": 0.01}),
             ("Adam", torch.optim.Adam, {}), ("Adam+wd", torch.optim.Adam, {"weight_decay": 0.01})]
@@ -663,10 +890,11 @@ def shape_cases(ctx):
     CLS = [PositiveWaveFunction, ComplexWaveFunction, DensityMatrix]
     m = ctx.get_model()
     for k in range(3):
-        for nv in (1, 3):
-            for nh in ((None, 0, 2, 4) if k == 2 else (None, 2, 4)):
-                for na in ((None, 0, 2) if k == 2 else (None,)):
-                    for rep in range(3):              # the size arguments in three different encodings (Python int / numpy integer / float)
+        # EVERY architecture of the stated ranges (one construction each; three encodings of the arguments for the original few)
+        for nv in range(1, 6):
+            for nh in ((None, 0, 1, 2, 3, 4, 5, 6) if k == 2 else (None, 1, 2, 3, 4, 5, 6)):
+                for na in ((None, 0, 1, 2, 3, 4, 5) if k == 2 else (None,)):
+                    for rep in range(3 if nv in (1, 3) and nh in (None, 0, 2, 4) and na in (None, 0, 2) else 1):
                         args = (enc_sz(ctx, nv), enc_sz(ctx, nh)) if k < 2 else (enc_sz(ctx, nv), enc_sz(ctx, nh), enc_sz(ctx, na))
                         case = {"shapes": CLS[k].__name__, "nv": nv, "nh": nh, "na": na, "args": [repr(a) for a in args]}
                         gk = gpu_kw(ctx)
@@ -685,6 +913,7 @@ def shape_cases(ctx):
 
 
 def run(ctx):
+    aux_bias_arch_block(ctx)
     module_gpu_cases(ctx)
     shape_cases(ctx)
     fit_guard_cases(ctx)
